@@ -14,11 +14,24 @@ def rep():
     return dri.Rep({"family": "binding"}, B.binding_battery(), B.binding_judge)
 
 
-@obligation("C06/build-indices", desc="build_indices (2 signals x 2 header columns, symbolic names as identities, symbolic "
-            "directions): per signal, in signal order - input-capable: one input index from the first column of that name "
-            "else Default; bidirectional: one expected index from the first column `<name>_out` else Default (never from "
-            "`<name>`); output/virtual: one expected index from column `<name>` else Default; inputs get no expected entry")
-def build_indices(O):
+BI_DESC = ("build_indices (2 signals x 2 header columns, symbolic names as identities): per signal, in signal order - "
+           "input-capable: one input index from the first column of that name else Default; bidirectional: one expected index "
+           "from the first column `<name>_out` else Default (never from `<name>`); output/virtual: one expected index from "
+           "column `<name>` else Default; inputs get no expected entry; first signal is ")
+
+
+def _reg_bi(kind):
+    @obligation("C06/build-indices[%s]" % kind, desc=BI_DESC + kind)
+    def _ob(O, kind=kind):
+        build_indices(O, kind)
+    return _ob
+
+
+for _k in ("Input", "Output", "Bidirectional", "Virtual"):
+    _reg_bi(_k)
+
+
+def build_indices(O, first_kind):
     m = O.mir
     R = rep()
     fn = O.find("::build_indices")
@@ -39,6 +52,7 @@ def build_indices(O):
         fr.locals[2].target = build.slice_of_items(sigs, "[Signal]")
         for s in range(NS):
             eng_.tag_of(sigs[s].fields[2], st)
+        st.pc.append(z3.BitVec("typ0.tag", 64) == bv64(m.vidx("SignalType", first_kind)))
     paths = O.explore(eng, fn, setup=setup)
     rets = [p for p in paths if p.outcome == "return"]
     O.witness(rets, "build_indices returns")
@@ -102,8 +116,8 @@ def build_indices(O):
                 key = lambda c, s=s: col[c] == name[s]
                 txt = "expected index of an output/virtual signal comes from the column of that name, else Default"
             R.prove(O, p, index_claim(eng.elem(exps, bv64(j)), s, key), txt)
-    if len(shapes) != 16:
-        O.inconclusive("only %d of 16 direction combinations explored" % len(shapes))
+    if len(shapes) != 4:
+        O.inconclusive("only %d of 4 direction combinations explored" % len(shapes))
     O.note("2 signals x 2 columns, %d direction combinations, %d paths" % (len(shapes), len(paths)))
 
 
